@@ -55,6 +55,8 @@ pub struct CharIndices { _p: u8 }
 impl CharIndices {
     pub uninterp spec fn src(&self) -> Str;
     pub uninterp spec fn pos(&self) -> int;                  // index of the next char to yield
+    pub open spec fn count(&self) -> int { self.src().chars().len() as int }        // items in total
+    pub open spec fn off(&self, k: int) -> int { self.src().offs()[k] }             // byte offset reported with item k
     #[verifier::external_body]
     pub fn next(&mut self) -> (r: Option<(usize, char)>)
         requires old(self).src().wf(), 0 <= old(self).pos() <= old(self).src().chars().len(),
@@ -90,3 +92,39 @@ pub fn str_match_index(u: &UnitBuf, Ghost(table): Ghost<Seq<Seq<char>>>) -> (r: 
 
 pub assume_specification[ char::is_ascii_digit ](c: &char) -> (b: bool);
 pub assume_specification[ char::is_ascii_alphabetic ](c: &char) -> (b: bool);
+
+// byte-level iteration `s.bytes().enumerate()`: every byte index is reported, whether or not it is a char boundary
+#[verifier::external_body]
+pub struct Bytes { _p: u8 }
+#[verifier::external_body]
+pub struct EnumBytes { _p: u8 }
+impl Str {
+    #[verifier::external_body]
+    pub fn bytes(&self) -> (r: Bytes)
+        requires self.wf(),
+        ensures r.src() == *self,
+    { unimplemented!() }
+}
+impl Bytes {
+    pub uninterp spec fn src(&self) -> Str;
+    #[verifier::external_body]
+    pub fn enumerate(self) -> (r: EnumBytes)
+        ensures r.src() == self.src(), r.pos() == 0,
+    { unimplemented!() }
+}
+impl EnumBytes {
+    pub uninterp spec fn src(&self) -> Str;
+    pub uninterp spec fn pos(&self) -> int;
+    pub open spec fn count(&self) -> int { self.src().blen() }
+    pub open spec fn off(&self, k: int) -> int { k }
+    #[verifier::external_body]
+    pub fn next(&mut self) -> (r: Option<(usize, u8)>)
+        requires old(self).src().wf(), 0 <= old(self).pos() <= old(self).src().blen(),
+        ensures
+            final(self).src() == old(self).src(),
+            old(self).pos() < old(self).src().blen() ==> r.is_some() && r.unwrap().0 == old(self).pos() && final(self).pos() == old(self).pos() + 1,
+            old(self).pos() >= old(self).src().blen() ==> r.is_none() && final(self).pos() == old(self).pos(),
+    { unimplemented!() }
+}
+pub assume_specification[ u8::is_ascii_digit ](c: &u8) -> (b: bool);
+pub assume_specification[ u8::is_ascii_alphabetic ](c: &u8) -> (b: bool);
